@@ -4,6 +4,7 @@ import (
 	"context"
 	"errors"
 	"math/big"
+	"strings"
 	"time"
 
 	"github.com/vipnode/vipnode/v2/internal/verifapi"
@@ -179,4 +180,60 @@ func VerifC03RealBig() {
 	}
 	verifapi.Reach("c03.real")
 	verifapi.Assert(first.Credit.Int64() == 500 && first.Deposit.Int64() == deposit, "c10.real.handed-out-balance-is-a-snapshot")
+}
+
+// VerifC03ContractEvents: admission decisions through the real contract proxy
+// (chain model behind the binding) while the wallet's on-chain deposit
+// CHANGES: the first decision looks the deposit up (and caches it), then the
+// deposit is topped up or withdrawn on-chain and the contract's Balance event
+// reaches the cache as the subscription delivers it (under the checksummed
+// address), and the next decision - at connect or at a billed keep-alive - is
+// taken on the NEW deposit plus the credit.
+func VerifC03ContractEvents() {
+	db := newVerifStore()
+	wal := store.Account(verifapi.Wallet(verifapi.Choose("wallet", 3)))
+	client := store.NodeID(verifapi.NodeID(0))
+	host := store.NodeID(verifapi.NodeID(1))
+	cp := verifNewContractPayment(db)
+	ch := verifTheChain
+	key := strings.ToLower(string(wal))
+	now := verifapi.Time("now")
+	verifapi.SetNow(now)
+	db.SetNode(store.Node{ID: client, LastSeen: now})
+	db.SetNode(store.Node{ID: host, IsHost: true, LastSeen: now})
+	db.AddAccountNode(wal, client)
+	credit := verifapi.BigInt("credit")
+	db.AddNodeBalance(client, credit)
+	d1, d2 := verifapi.BigInt("deposit1"), verifapi.BigInt("deposit2")
+	verifapi.Assume(d1.Sign() >= 0 && d2.Sign() >= 0)
+	ch.deposit[key] = d1
+	min := verifapi.BigInt("min")
+	mgr := balance.PayPerInterval(cp, 60000000000, big.NewInt(100000000000))
+	mgr.MinBalance = min
+	judge := func(err error, spendable *big.Int, tag string) {
+		if lbe, ok := err.(balance.LowBalanceError); ok {
+			verifapi.Assert(spendable.Cmp(min) < 0, "c03.events.client-at-or-above-min-never-refused")
+			verifapi.Assert(lbe.CurrentBalance.Cmp(spendable) == 0, "c03.events.error-reports-actual-balance")
+		} else {
+			verifapi.Assert(err == nil, "c03.events.no-other-error")
+			verifapi.Assert(spendable.Cmp(min) >= 0, "c03.events.client-below-min-refused")
+		}
+	}
+	judge(mgr.OnClient(store.Node{ID: client}), new(big.Int).Add(credit, d1), "first")
+	// the deposit changes on-chain; the contract emits Balance(wallet, new deposit)
+	ch.deposit[key] = d2
+	ch.onBalance(wal, new(big.Int).Set(d2))
+	verifapi.Reach("c03.events")
+	if verifapi.Bool("then-connect") {
+		judge(mgr.OnClient(store.Node{ID: client}), new(big.Int).Add(credit, d2), "second")
+		return
+	}
+	dt := verifapi.Dur("dt")
+	verifapi.Assume(dt > 0 && dt < 100000000000)
+	verifapi.SetNow(now.Add(dt))
+	charge := new(big.Int).Div(new(big.Int).Mul(big.NewInt(int64(dt)), big.NewInt(100000000000)), big.NewInt(60000000000))
+	_, err := mgr.OnUpdate(store.Node{ID: client, LastSeen: now}, []store.Node{{ID: host, IsHost: true}})
+	if charge.Sign() != 0 {
+		judge(err, new(big.Int).Sub(new(big.Int).Add(credit, d2), charge), "keepalive")
+	}
 }
